@@ -246,6 +246,19 @@ void multithreaded(vh::rng& r, hashes& h, const vh::args& a) {
         ready.fetch_add(1);
         while (ready.load() < NT) std::this_thread::yield();
         const u64 base = static_cast<u64>(t) << 56;
+        if (a.num("only-mt", 0) == 2) {
+          // churn: build a node of 2 / 5 / 17 children under this thread's own branch and take it down again, over and over -
+          // every thread creates, grows, shrinks and dissolves nodes of the same classes at the same time as the others
+          for (u64 i = 0; i < nops;) {
+            const u64 m = tr.below(3) == 0 ? 17 : (tr.below(2) == 0 ? 5 : 2);
+            bytes v(8, 'c');
+            for (u64 j = 1; j <= m; ++j, ++i) acc = vh::hash_combine(acc, db.insert(base + j, vv(v)) ? 1 : 2);
+            for (u64 j = m; j >= 1; --j, ++i) acc = vh::hash_combine(acc, db.remove(base + j) ? 3 : 4);
+            if (tr.chance(0.2)) unodb::this_thread().quiescent();
+          }
+          results[t] = acc;
+          return;
+        }
         for (u64 i = 0; i < nops; ++i) {
           // keys 1..255 in two layouts: dense low byte, and spread over a middle byte (different node classes / depths)
           const u64 kk = tr.below(2) == 0 ? base + 1 + tr.below(60) : base + ((1 + tr.below(40)) << 24);
@@ -278,6 +291,25 @@ void multithreaded(vh::rng& r, hashes& h, const vh::args& a) {
   unodb::this_thread().quiescent();
   unodb::this_thread().quiescent();
   for (const u64 x : results) h.trace = vh::hash_combine(h.trace, x);
+#ifdef UNODB_DETAIL_WITH_STATS
+  {
+    // C10, truly parallel part: the growth / shrink counters must account for exactly the inner nodes that exist
+    // (a counter update lost between two threads that grow or shrink nodes of one class at the same time breaks this)
+    const auto counts = db.get_node_counts();
+    const auto g = db.get_growing_inode_counts();
+    const auto sh = db.get_shrinking_inode_counts();
+    static const char* cn[] = {"LEAF", "I4", "I16", "I48", "I256"};
+    for (std::size_t c = 0; c < 4; ++c) {
+      const long long expect = static_cast<long long>(g[c]) - static_cast<long long>(sh[c]) - (c < 3 ? static_cast<long long>(g[c + 1]) - static_cast<long long>(sh[c + 1]) : 0);
+      if (expect != static_cast<long long>(counts[c + 1]))
+        rep().violation("C10", std::string("cfgdiff/parallel/growth-shrink-conservation/") + cn[c + 1],
+                        "after a parallel phase the growth/shrink counters do not account for the inner nodes that exist (an update was lost, or a counter moved without a structural event)",
+                        json::object().set("class", cn[c + 1]).set("nodes", counts[c + 1]).set("implied_by_counters", expect));
+    }
+    rep().count("parallel_conservation_checks");
+    rep().count("parallel_structural_events", g[0] + g[1] + g[2] + g[3] + sh[0] + sh[1] + sh[2] + sh[3]);
+  }
+#endif
   fold_scan(db, h, 0, true, bytes(), bytes(), static_cast<std::size_t>(-1));
   fold_stats(db, h);
 }
@@ -295,7 +327,7 @@ int main(int argc, char** argv) {
     rep().progress_case(c, "cfgdiff");
     vh::rng r(vh::case_seed(rep().seed, c, 0xCF6));
     hashes h;
-    switch (c % 7) {
+    switch (a.num("only-mt", 0) != 0 ? 6 : c % 7) {
       case 0: history<unodb::db<std::uint64_t, V>>(r, h, a); break;
       case 1: history<unodb::db<unodb::key_view, V>>(r, h, a); break;
       case 2: history<unodb::mutex_db<std::uint64_t, V>>(r, h, a); break;
